@@ -58,8 +58,8 @@ func coqPK(m *vh.MemKeystore) string {
 	return fmt.Sprintf("(mk_pk %s %s)", vh.HL(privs), vh.HL(m.PoisonSyms))
 }
 
-// storage builds the real callback storage: hasCb=false gives a storage without callbacks
-func storage(hasCb, fail bool, delivered *bool) (*poison.CallbackStorage, *countingCallback) {
+// c15CallbackStorage builds the real callback storage: hasCb=false gives a storage without callbacks
+func c15CallbackStorage(hasCb, fail bool, delivered *bool) (*poison.CallbackStorage, *countingCallback) {
 	st := poison.NewCallbackStorage()
 	cb := &countingCallback{delivered: delivered, fail: fail}
 	if hasCb {
@@ -100,7 +100,7 @@ func (p *PoisonOps) Create(label string, m *vh.MemKeystore, sym bool, n int) vh.
 // Column: the detector chain exactly as proxyFactory.New builds it (poison detector first, then the decrypt handler)
 func (p *PoisonOps) Column(label string, m *vh.MemKeystore, ks *vh.KeySet, hasCb, fail bool, col []byte) (vh.Outcome, *countingCallback) {
 	delivered := false
-	st, cb := storage(hasCb, fail, &delivered)
+	st, cb := c15CallbackStorage(hasCb, fail, &delivered)
 	rh := crypto.NewRegistryHandler(m)
 	det := crypto.NewEnvelopeDetector()
 	if st != nil && st.HasCallbacks() {
@@ -125,7 +125,7 @@ func (p *PoisonOps) Column(label string, m *vh.MemKeystore, ks *vh.KeySet, hasCb
 // Detect: PoisonRecordDetector.OnCryptoEnvelope on one container
 func (p *PoisonOps) Detect(label string, m *vh.MemKeystore, hasCb, fail bool, container []byte) (vh.Outcome, *countingCallback) {
 	delivered := false
-	st, cb := storage(hasCb, fail, &delivered)
+	st, cb := c15CallbackStorage(hasCb, fail, &delivered)
 	pd := crypto.NewPoisonRecordsRecognizer(m, crypto.NewRegistryHandler(m))
 	pd.SetPoisonRecordCallbacks(st)
 	o := vh.Guard(func() vh.Outcome {
@@ -140,7 +140,7 @@ func (p *PoisonOps) Detect(label string, m *vh.MemKeystore, hasCb, fail bool, co
 // Translator: TranslatorService.Decrypt / DecryptSym with poison callbacks configured
 func (p *PoisonOps) Translator(label string, id byte, m *vh.MemKeystore, ks *vh.KeySet, hasCb, fail bool, data []byte) (vh.Outcome, *countingCallback) {
 	delivered := false
-	st, cb := storage(hasCb, fail, &delivered)
+	st, cb := c15CallbackStorage(hasCb, fail, &delivered)
 	svc, err := common.NewTranslatorService(&common.TranslatorData{Keystorage: m, PoisonRecordCallbacks: st})
 	if err != nil {
 		panic(err)
